@@ -330,6 +330,7 @@ func c18BackendConc(cc c18Cell, env *Env) CellResult {
 			if !seen[v.Signature] {
 				seen[v.Signature] = true
 				v.Choices = r.Choices()
+				mustReproduce(v.Signature, v.Choices, body, check)
 				v.Detail += fmt.Sprintf("\n  program: %s || %v (0=Write new key, 1=Delete k0, 2=Read k0)", batch, prog)
 				res.Violations = append(res.Violations, v)
 			}
